@@ -5,11 +5,10 @@
 (*   invalid setting  : a documented exception (SettingValidationError / TypeError / ValueError) is    *)
 (*                      raised whatever the string is                                               *)
 (* Which classes may escape at all is the exception-flow model of Pipeline.tla.                      *)
-EXTENDS Pipeline, Json, IOUtils
+EXTENDS Pipeline, AbsTrace, NoSpaces, Json, IOUtils
 
 Tr == ndJsonDeserialize(IOEnv.TRACE_FILE)
 VARIABLE l
-SeqToSet(s) == {s[i] : i \in 1..Len(s)}
 Periods == {"time", "day", "week", "month", "year"}
 
 Verdict(r) ==
@@ -21,7 +20,14 @@ Verdict(r) ==
   ELSE IF r.exc = "" THEN "invalid-setting-accepted"
        ELSE IF SeqToSet(r.mro) \cap {"SettingValidationError", "TypeError"} = {} THEN "invalid-setting-wrong-exception"
        ELSE "ok"
-Check(r) == LET v == Verdict(r) IN IF v = "ok" THEN TRUE ELSE PrintT(<<"REJECT", r.tid, "prop", v, r.exc>>)
+NspModel(r) == IF ~r.eligible THEN [out |-> NSFail, period |-> ""]
+               ELSE NoSpacesParse(r.toks, r.order, r.strict, SeqToSet(r.require))
+Check(r) ==
+  IF r.kind = "abs" THEN (IF AbsVerdict(r) = "drift" THEN PrintT(<<"REJECT", r.tid, "abs", "absparser", AbsModel(r)>>) ELSE TRUE)
+  ELSE IF r.kind = "nsp" THEN
+       (IF ~r.skip /\ ~(NspModel(r).out = r.out /\ (r.out = NSFail \/ NspModel(r).period = r.period))
+          THEN PrintT(<<"REJECT", r.tid, "abs", "nospaces", NspModel(r)>>) ELSE TRUE)
+  ELSE LET v == Verdict(r) IN IF v = "ok" THEN TRUE ELSE PrintT(<<"REJECT", r.tid, "prop", v, r.exc>>)
 
 TInit == l = 0
 TNext == l < Len(Tr) /\ l' = l + 1 /\ Check(Tr[l + 1])
